@@ -482,6 +482,22 @@ def trace_cases(ctx):
         for l in open(corpus):
             if l.strip() and not l.startswith("#"):
                 C.append(parse_case_line(l.strip()))
+    # many pointer-distinct names / categories on one thread: counts at powers of two +-1 (where a growing container of cached
+    # strings would reallocate), short names (stored inside a std::string object) and long ones, each decoded name compared;
+    # last in the batch: an ASan abort here costs no other case
+    for n in (15, 16, 17, 31, 32, 33, 63, 64, 65, 127, 128, 129, 255, 256, 257, 511, 512, 513, 1023, 1024, 1025):
+        strs = [("s%d" % i) if i % 3 else ("a-long-event-name-%04d-beyond-the-small-string-size" % i) for i in range(n)]
+        ops = []
+        for i, nm in enumerate(strs):
+            if i % 4 == 1:
+                ops.append("B:%s:%s" % (nm, strs[i // 2]))        # category: a string seen before (cache hit)
+                ops.append("E")
+            elif i % 4 == 3:
+                ops.append("C:%s:%d" % (nm, i))
+            else:
+                ops.append("M:%s:-" % nm)
+        ops += ["M:%s:%s" % (strs[k], strs[-1 - k]) for k in range(min(3, n))]      # the earliest names again, after all growth
+        add("names-%d" % n, "-", [("t0", ops)])
     return C
 
 
@@ -842,7 +858,10 @@ def run_trace(ctx, model, exe):
     rc, res, err = run_harness_trace(ctx, exe, cases, od)
     if rc != 0:
         i = len(res)
-        ctx.violation("tracing harness crashed (rc=%d) on the real code" % rc,
+        san = re.search(r"(ERROR: AddressSanitizer: [^\n]*|runtime error: [^\n]*)", err)
+        where = re.findall(r"#\d+ [^\n]* in ([^\n]*Tracing\.(?:cpp|h):\d+)", err)
+        ctx.violation("recording / saveLog crashed or tripped a sanitizer (rc=%d%s%s) on case %s" % (
+                          rc, ": " + san.group(1)[:160] if san else "", "; at " + where[0] if where else "", cases[i]["tag"] if i < len(cases) else "?"),
                       {"case": case_line(cases[i])[:3000] if i < len(cases) else None, "stderr_tail": err[-2500:],
                        "required": "no crash, no sanitizer report"}, found_input=i < len(cases))
     ctx.count(len(res))
@@ -950,6 +969,51 @@ def run_trace(ctx, model, exe):
     ctx.cov["trace_threads_histogram"] = {str(n): sum(1 for c in cases if len(c["threads"]) == n) for n in range(0, 9)}
 
 
+def run_race(ctx, exe_tsan):
+    """N threads released by a barrier record their FIRST event at the same moment (registration of the thread's list in the
+    recorder's map), many rounds with fresh recorders, under ThreadSanitizer; every thread's events exactly once in each log."""
+    od = os.path.join(ctx.build, "race")
+    shutil.rmtree(od, ignore_errors=True)
+    os.makedirs(od)
+    stat = {"runs": 0, "rounds": 0}
+    for (n, rounds) in ((2, 30), (3, 20), (4, 20), (8, 12), (16, 8)) + (((2, 200), (5, 60), (16, 30)) if ctx.thorough() else ()):
+        rc, out, err = ctx.run_exe(exe_tsan, ["race", od, str(n), str(rounds)], timeout=300)
+        stat["runs"] += 1
+        ctx.count(1)
+        o = out.strip()
+        why = None
+        if rc != 0:
+            m = re.search(r"(WARNING: ThreadSanitizer: [^\n]*)", err)
+            frames = re.findall(r"#\d+ ([^\n]*Tracing\.cpp:\d+)", err)
+            why = "%s%s (rc=%d)" % (m.group(1) if m else "crashed", "; " + "; ".join(dict.fromkeys(f.strip()[:120] for f in frames[:4])) if frames else "", rc)
+        elif not o.startswith("OK"):
+            why = o[:400] or "no output"
+        else:
+            # independent reading of the last round's log
+            path = o.split()[-1]
+            try:
+                objs = json.loads(open(path).read(), parse_constant=_no_const)
+                names = [x.get("name") for x in objs if x.get("ph") in ("B", "i", "C") and x.get("cat") != "builtin"]
+                want = sorted("r%d_t%d_%s" % (rounds - 1, k, sfx) for k in range(n) for sfx in ("first", "mark", "count"))
+                if sorted(names) != want:
+                    why = "the log of the last round holds the events %r, recorded %r" % (sorted(names)[:12], want[:12])
+                nthr = sum(1 for x in objs if x.get("ph") == "M" and x.get("name") == "thread_name")
+                if not why and nthr != n:
+                    why = "%d thread lists in the log, %d threads recorded" % (nthr, n)
+            except (ValueError, OSError) as e:
+                why = "log of the last round unreadable: %s" % e
+        if why:
+            ctx.violation("tracing from %d threads that record their first event at the same time: %s" % (n, why),
+                          {"threads": n, "rounds": rounds, "scenario": "per round a fresh recorder; the threads wait at a barrier, then each calls beginEvent (its first tracing "
+                           "call, which registers the thread's event list), setMarker, setCounter, endEvent; join; saveLog",
+                           "observed": why, "required": "no data race (ThreadSanitizer), every thread's events exactly once in the log",
+                           "stderr_tail": err[-3000:], "rerun": "TSAN_OPTIONS=exitcode=97:halt_on_error=1 %s race %s %d %d" % (exe_tsan, od, n, rounds)})
+            break
+        stat["rounds"] += rounds
+        ctx.nontriv("race %d %d" % (n, rounds))
+    ctx.cov["concurrent_first_events_tsan"] = stat
+
+
 FACT_THMS = ("facts_image_loop_nest", "facts_image_index", "facts_image_stack_one_row", "facts_image_formats", "facts_trace_match", "facts_trace_model")
 
 
@@ -978,12 +1042,15 @@ def run(ctx):
                 % (bad_facts, facts.get("notes"), json.dumps({k: facts.get(k) for k in ("img", "fmt", "tr")})[:2000]))
     ctx.cov["source_obligations_broken"] = bad_facts
     model = ctx.extract(snippets=["conv_N.ml"])
-    exe = ctx.cxx(["harness.cpp"], "harness", repo_sources=[], sanitize="asan")
+    exe, exe_tsan = ctx.cxx_many([dict(sources=["harness.cpp"], out="harness", repo_sources=[], sanitize="asan"),
+                                  dict(sources=["harness.cpp"], out="harness_tsan", repo_sources=[], sanitize="tsan")])
     if not model or not exe:
         return
     finish_wide = run_images(ctx, model, exe)
     try:
         run_trace(ctx, model, exe)
+        if exe_tsan:
+            run_race(ctx, exe_tsan)
     finally:
         finish_wide()
     ctx.rule = ("images: every (w,h) in 1..6 x 1..6 plus (1,257),(257,1) (thorough: more) x six writers (writePPM, writePGM, writePFM<float|vec3f|vec3fa|vec4f>), "
